@@ -147,6 +147,10 @@ def worker(chunk):
                 hv = hyp(tr)
                 if hv:
                     div = {'why': hv[0], 'at': -1}
+        if 'C02' in want and 'C02' not in viol and tr['verdict'] == 'deadlock' and div and 'model is not stuck' in div.get('why', ''):
+            # outside the fragments too: the real run deadlocks where the model (which reproduces the recorded
+            # defects of the unchanged tree) goes on — a failing input for C02, not a listed pre-existing behaviour
+            viol['C02'] = monitors.c02(tr)[:1]
         if tr.get('lock_slow_path'):
             div = div or {'why': 'asyncio.Lock took its slow path (the model assumes it never does)', 'at': -1}
         rec = {
@@ -209,12 +213,16 @@ def corpus_items(monitors_=None):
         for name, spec in json.loads(f.read_text()).items():
             sch = [['rand', 11, 0.0], ['rand', 12, 0.3], ['rand', 13, 0.5], ['enum', 24]]
             items.append({'name': name, 'spec': spec, 'schedules': sch, 'monitors': monitors_})
+    from . import mkcorpus
+    for name, spec in mkcorpus.motif_specs().items():
+        items.append({'name': 'motif:' + name, 'spec': spec, 'schedules': [['rand', 21, 0.0], ['rand', 22, 0.3], ['enum', 16]],
+                      'monitors': monitors_})
     return items
 
 
 # per-property exploration profile: which programs / schedules / monitors decide it
 PROFILES = {
-    'C01': dict(monitors=['C01'], profiles=('plain', 'switch', 'oneof', 'rec', 'mixed', 'shared'), q=1800, t=20000),
+    'C01': dict(monitors=['C01', 'C02'], profiles=('plain', 'switch', 'oneof', 'rec', 'mixed', 'shared'), q=1800, t=20000),
     'C02': dict(monitors=['C02'], profiles=('plain', 'switch', 'oneof', 'rec', 'mixed', 'shared'), q=1800, t=20000,
                 fail_p=0.3),
     'C03': dict(monitors=['C03'], profiles=('plain', 'switch', 'oneof', 'rec', 'mixed', 'shared'), q=1800, t=20000),
@@ -281,6 +289,11 @@ def main_for(pid, tier_):
         rng = random.Random(C.seed() * 37 + 5)
         for it in items:
             it['schedules'] = it['schedules'][:2] + [['hold_depth', rng.randrange(1 << 30)] for _ in range(3)]
+        # very wide layers: no cap on the number of equal-depth nodes in flight together
+        from . import mkcorpus
+        for w, md in ((12, ('coro',)), (24, ('coro', 'thread')), (40, ('coro',)), (60, ('coro', 'process', 'thread'))):
+            items.append({'name': f'wide{w}', 'spec': mkcorpus.wide_spec(w, md), 'monitors': prof['monitors'],
+                          'schedules': [['hold_depth', rng.randrange(1 << 30)], ['rand', 5, 0.0]]})
     if prof.get('cancel'):
         # C13: the caller is cancelled before every loop handle of a base schedule (exhaustive per run)
         rng = random.Random(C.seed() * 31 + 13)
@@ -290,10 +303,23 @@ def main_for(pid, tier_):
             else:
                 it['schedules'] = it['schedules'][:2] + [['cancel_all', rng.randrange(1 << 30), rng.choice([0.0, 0.3]), 0]]
     recs = run_items(items)
-    return finish(pid, tier_, recs, aud, T, prof, SCHED_TEXT.format(profiles=prof['profiles'], enum=enum))
+    extra = None
+    if pid == 'C03':
+        from . import multirun
+        stats, bad = multirun.c03_histories(400 if tier_ == 'quick' else 4000)
+        extra = stats
+        if bad:
+            r = min(bad, key=lambda x: len(x['spec']['nodes']))
+            C.report_violation(pid, {'property': pid, 'kind': 'failing-history', 'what': r['viol_c03'], 'spec': r['spec'],
+                                     'pseed': r['pseed'], 'profile': r['profile'], 'mode': 'C07',
+                                     'replay': 'python -m harness.multirun history (pseed, profile)'})
+            finish(pid, tier_, recs, aud, T, prof, SCHED_TEXT.format(profiles=prof['profiles'], enum=enum), extra_cov=extra,
+                   quiet=True)
+            return C.EXIT_VIOLATION
+    return finish(pid, tier_, recs, aud, T, prof, SCHED_TEXT.format(profiles=prof['profiles'], enum=enum), extra_cov=extra)
 
 
-def finish(pid, tier_, recs, aud, T, prof, rule, extra_cov=None):
+def finish(pid, tier_, recs, aud, T, prof, rule, extra_cov=None, quiet=False):
     from . import findings
     s = summarize(recs)
     bad = [r for r in recs if r.get('div') or r.get('viol')]
@@ -316,7 +342,10 @@ def finish(pid, tier_, recs, aud, T, prof, rule, extra_cov=None):
         cov.update(extra_cov)
     if herr and len(herr) > max(3, len(recs) // 50):
         raise C.ToolFailure(f'{len(herr)} harness errors, e.g. {herr[0]}')
-    code, nviol = findings.decide(pid, bad, prof)
+    if quiet:
+        code, nviol = C.EXIT_VIOLATION, 1
+    else:
+        code, nviol = findings.decide(pid, bad, prof)
     C.write_evidence(pid, tier_, 'proof', cov, T.s(), violations=nviol, assumptions=[
         'asyncio facts A1–A7 of DESIGN.md §1.2 (A2 asserted at run time)',
         'launch order of nx.topological_sort is an oracle input validated by the model (validOrder)',
